@@ -37,6 +37,7 @@ type InstanceSpec struct {
 	ConcCap     int              `json:"conc_cap,omitempty"`
 	MaxDecisions int             `json:"max_decisions,omitempty"`
 	SchedSymbolic bool           `json:"sched_symbolic,omitempty"`
+	ClockSymbolic bool           `json:"clock_symbolic,omitempty"`
 	TimeoutS    int              `json:"timeout_s,omitempty"`
 	Skip        []map[string]int `json:"skip,omitempty"` // param combinations to skip
 }
@@ -54,6 +55,7 @@ type Spec struct {
 	Assumptions  []string          `json:"assumptions"`
 	Bounds       map[string]string `json:"bounds"`
 	LoadPatterns []string          `json:"load_patterns"`
+	Groups       []*Spec           `json:"groups"`
 }
 
 type KnownFinding struct {
@@ -103,6 +105,8 @@ type instResult struct {
 	asserts     map[string]int
 	funcs       map[string]int
 	samples     []map[string]uint64
+	gspec       *Spec
+	realFiles   map[string]string
 }
 
 var (
@@ -264,35 +268,59 @@ func cmdRun(args []string) int {
 		os.Remove(evidencePath)
 	}
 
-	// overlay
-	relPkg := strings.TrimPrefix(spec.Package, modPath+"/")
-	hfiles := map[string]string{}
-	for _, f := range spec.Files {
-		hfiles[filepath.Join(repoRoot, relPkg, "zz_verif_"+filepath.Base(f))] = filepath.Join(specDir, f)
+	groups := []*Spec{&spec}
+	if len(spec.Groups) > 0 {
+		groups = nil
+		for i := range spec.Groups {
+			g := spec.Groups[i]
+			g.Property = spec.Property
+			if g.Package == "" {
+				g.Package = spec.Package
+			}
+			groups = append(groups, g)
+		}
 	}
-	for virt, f := range spec.ExtraFiles {
-		hfiles[filepath.Join(repoRoot, virt)] = filepath.Join(specDir, f)
+	sem := make(chan struct{}, *workers)
+	var mu sync.Mutex
+	var results []*instResult
+	var loadedAny *Loaded
+	var failMsg string
+	var gwg sync.WaitGroup
+	for gi, g := range groups {
+		gwg.Add(1)
+		go func(gi int, g *Spec) {
+			defer gwg.Done()
+			rs, l, msg := runGroup(g, gi, specDir, *verifRoot, *tier, *only, *paramFilter, sem, *trace, !*noX, *concreteModel)
+			mu.Lock()
+			defer mu.Unlock()
+			if msg != "" && failMsg == "" {
+				failMsg = msg
+			}
+			results = append(results, rs...)
+			if l != nil {
+				loadedAny = l
+			}
+		}(gi, g)
 	}
-	genDir := filepath.Join(*verifRoot, "out", "gen", spec.Property)
-	os.RemoveAll(genDir)
-	overlay, realFiles, err := buildOverlay(*verifRoot, hfiles, spec.Consts, genDir)
-	if err != nil {
-		return finishInconclusive(&spec, *tier, seed, evidencePath, start, "overlay: "+err.Error(), *noEvidence)
+	gwg.Wait()
+	if failMsg != "" {
+		return finishInconclusive(&spec, *tier, seed, evidencePath, start, failMsg, *noEvidence)
 	}
-	patterns := spec.LoadPatterns
-	if len(patterns) == 0 {
-		patterns = []string{spec.Package}
+	if len(results) == 0 {
+		return finishInconclusive(&spec, *tier, seed, evidencePath, start, "no instances selected", *noEvidence)
 	}
-	loaded, err := loadProgram(patterns, overlay)
-	if err != nil {
-		return finishInconclusive(&spec, *tier, seed, evidencePath, start, "load: "+err.Error(), *noEvidence)
-	}
-	fmt.Fprintf(os.Stderr, "[gosx] loaded %d packages in %.1fs\n", len(loaded.prog.AllPackages()), loaded.loadTime.Seconds())
+	sort.SliceStable(results, func(i, j int) bool { return results[i].inst.String() < results[j].inst.String() })
+	return finish(&spec, *tier, seed, evidencePath, start, loadedAny, results, *verifRoot, *noEvidence, *noReplay)
+}
 
-	insts := expandInstances(&spec, *tier, *only)
-	if *paramFilter != "" {
+var progressMu sync.Mutex
+var progressDone int
+
+func runGroup(spec *Spec, gi int, specDir, verifRoot, tier, only, paramFilter string, sem chan struct{}, trace, xcheck bool, concreteModel string) ([]*instResult, *Loaded, string) {
+	insts := expandInstances(spec, tier, only)
+	if paramFilter != "" {
 		want := map[string]int{}
-		for _, kv := range strings.Split(*paramFilter, ",") {
+		for _, kv := range strings.Split(paramFilter, ",") {
 			p := strings.SplitN(kv, "=", 2)
 			v, _ := strconv.Atoi(p[1])
 			want[p[0]] = v
@@ -312,28 +340,45 @@ func cmdRun(args []string) int {
 		insts = f
 	}
 	if len(insts) == 0 {
-		return finishInconclusive(&spec, *tier, seed, evidencePath, start, "no instances selected", *noEvidence)
+		return nil, nil, ""
 	}
-
-	// resolve stubs
+	relPkg := strings.TrimPrefix(spec.Package, modPath+"/")
+	hfiles := map[string]string{}
+	for _, f := range spec.Files {
+		hfiles[filepath.Join(repoRoot, relPkg, "zz_verif_"+filepath.Base(f))] = filepath.Join(specDir, f)
+	}
+	for virt, f := range spec.ExtraFiles {
+		hfiles[filepath.Join(repoRoot, virt)] = filepath.Join(specDir, f)
+	}
+	genDir := filepath.Join(verifRoot, "out", "gen", fmt.Sprintf("%s-g%d", spec.Property, gi))
+	os.RemoveAll(genDir)
+	overlay, realFiles, err := buildOverlay(verifRoot, hfiles, spec.Consts, genDir)
+	if err != nil {
+		return nil, nil, "overlay: " + err.Error()
+	}
+	patterns := spec.LoadPatterns
+	if len(patterns) == 0 {
+		patterns = []string{spec.Package}
+	}
+	loaded, err := loadProgram(patterns, overlay)
+	if err != nil {
+		return nil, nil, "load: " + err.Error()
+	}
+	fmt.Fprintf(os.Stderr, "[gosx] group %d: loaded %d packages in %.1fs\n", gi, len(loaded.prog.AllPackages()), loaded.loadTime.Seconds())
 	stubMap := map[string]*ssa.Function{}
 	for _, s := range spec.Stubs {
 		w := loaded.findFuncByFullName(s.With)
 		if w == nil {
-			return finishInconclusive(&spec, *tier, seed, evidencePath, start, "stub function not found: "+s.With, *noEvidence)
+			return nil, nil, "stub function not found: " + s.With
 		}
 		if loaded.findFuncByFullName(s.Target) == nil {
-			return finishInconclusive(&spec, *tier, seed, evidencePath, start, "stub target not found: "+s.Target, *noEvidence)
+			return nil, nil, "stub target not found: " + s.Target
 		}
 		stubMap[s.Target] = w
 	}
 	allow := append(append([]string(nil), defaultInitAllow...), spec.InitAllow...)
-
 	results := make([]*instResult, len(insts))
 	var wg sync.WaitGroup
-	sem := make(chan struct{}, *workers)
-	var mu sync.Mutex
-	doneCount := 0
 	for idx := range insts {
 		wg.Add(1)
 		sem <- struct{}{}
@@ -341,17 +386,18 @@ func cmdRun(args []string) int {
 			defer wg.Done()
 			defer func() { <-sem }()
 			in := insts[idx]
-			r := runInstance(loaded, &spec, in, stubMap, allow, *trace, !*noX, *concreteModel)
+			r := runInstance(loaded, spec, in, stubMap, allow, trace, xcheck, concreteModel)
+			r.gspec = spec
+			r.realFiles = realFiles
 			results[idx] = r
-			mu.Lock()
-			doneCount++
-			fmt.Fprintf(os.Stderr, "[gosx] %d/%d %s: paths=%d viol=%d inconcl=%d %.1fs\n", doneCount, len(insts), in, r.paths, len(r.violations), len(r.inconclusive), r.wall.Seconds())
-			mu.Unlock()
+			progressMu.Lock()
+			progressDone++
+			fmt.Fprintf(os.Stderr, "[gosx] %d %s: paths=%d viol=%d inconcl=%d %.1fs\n", progressDone, in, r.paths, len(r.violations), len(r.inconclusive), r.wall.Seconds())
+			progressMu.Unlock()
 		}(idx)
 	}
 	wg.Wait()
-
-	return finish(&spec, *tier, seed, evidencePath, start, loaded, results, realFiles, *verifRoot, *noEvidence, *noReplay)
+	return results, loaded, ""
 }
 
 func runInstance(l *Loaded, spec *Spec, in instance, stubs map[string]*ssa.Function, allow []string, trace, xcheck bool, concreteModel string) (res *instResult) {
@@ -398,6 +444,7 @@ func runInstance(l *Loaded, spec *Spec, in instance, stubs map[string]*ssa.Funct
 		m.maxDecisions = in.spec.MaxDecisions
 	}
 	m.schedSymbolicDefault = in.spec.SchedSymbolic
+	m.clockSymbolic = in.spec.ClockSymbolic
 	entry := l.findFunc(spec.Package, in.entry)
 	if entry == nil {
 		res.inconclusive = append(res.inconclusive, "entry function not found: "+in.entry)
@@ -547,12 +594,13 @@ func writeJSON(path string, v interface{}) {
 	os.WriteFile(path, append(b, '\n'), 0o644)
 }
 
-func finish(spec *Spec, tier string, seed int, evidencePath string, start time.Time, l *Loaded, results []*instResult, realFiles map[string]string, root string, noEvidence, noReplay bool) int {
+func finish(spec *Spec, tier string, seed int, evidencePath string, start time.Time, l *Loaded, results []*instResult, root string, noEvidence, noReplay bool) int {
 	known := loadKnown(root)
 	var inconcl []string
 	type vrec struct {
 		in instance
 		v  *Violation
+		r  *instResult
 	}
 	var newV []vrec
 	knownSeen := map[string]int{}
@@ -598,7 +646,7 @@ func finish(spec *Spec, tier string, seed int, evidencePath string, start time.T
 				knownSeen[k.What]++
 				nk++
 			} else {
-				newV = append(newV, vrec{r.inst, v})
+				newV = append(newV, vrec{r.inst, v, r})
 			}
 		}
 		perInst = append(perInst, map[string]interface{}{"instance": r.inst.String(), "paths": r.paths, "decisions": r.branches, "queries": r.queries,
@@ -622,10 +670,10 @@ func finish(spec *Spec, tier string, seed int, evidencePath string, start time.T
 		writeJSON(filepath.Join(dir, "model.json"), nv.v.Model)
 		writeJSON(filepath.Join(dir, "violation.json"), map[string]interface{}{"property": spec.Property, "instance": nv.in.String(), "params": nv.in.params, "violation": nv.v})
 		status := "native-replay: none"
-		if prev, seen := replayedKeys[nv.v.Key]; seen && spec.NativeReplay && !noReplay {
+		if prev, seen := replayedKeys[nv.v.Key]; seen && nv.r.gspec.NativeReplay && !noReplay {
 			status = "native-replay: same key reproduced in " + prev
-		} else if spec.NativeReplay && !noReplay {
-			ok, out := nativeReplay(spec, nv.in, nv.v, dir, realFiles)
+		} else if nv.r.gspec.NativeReplay && !noReplay {
+			ok, out := nativeReplay(nv.r.gspec, nv.in, nv.v, dir, nv.r.realFiles)
 			os.WriteFile(filepath.Join(dir, "native.log"), []byte(out), 0o644)
 			if ok {
 				status = "native-replay: reproduced"
@@ -681,8 +729,8 @@ func finish(spec *Spec, tier string, seed int, evidencePath string, start time.T
 			"assertions_checked":            asserts,
 			"vacuity_witnesses":             reach,
 			"bounds":                        spec.Bounds,
-			"scaled_constants":              spec.Consts,
-			"stubs":                         spec.Stubs,
+			"scaled_constants":              allConsts(spec),
+			"stubs":                         allStubs(spec),
 			"per_instance":                  perInst,
 			"known_findings_seen":           knownSeen,
 			"inconclusive":                  inconcl,
@@ -763,4 +811,20 @@ func TestVPReplay(t *testing.T) {
 		}
 	}
 	return false, s
+}
+
+func allConsts(spec *Spec) []ConstOverride {
+	out := append([]ConstOverride(nil), spec.Consts...)
+	for _, g := range spec.Groups {
+		out = append(out, g.Consts...)
+	}
+	return out
+}
+
+func allStubs(spec *Spec) []StubSpec {
+	out := append([]StubSpec(nil), spec.Stubs...)
+	for _, g := range spec.Groups {
+		out = append(out, g.Stubs...)
+	}
+	return out
 }
